@@ -201,13 +201,13 @@ func (h *Hook) OnDisconnect(cl *mqtt.Client, _ error, expire bool) {
 		return
 	}
 
+	if errors.Is(cl.StopCause(), packets.ErrSessionTakenOver) {
+		return // a newer connection holds this client id: the stored record is its, not the superseded connection's
+	}
+
 	h.updateClient(cl)
 
 	if !expire {
-		return
-	}
-
-	if errors.Is(cl.StopCause(), packets.ErrSessionTakenOver) {
 		return
 	}
 
